@@ -34,7 +34,21 @@ Theorem to_eof_reads_all : forall rd f s pos ctx l p, seq_eof rd f s pos ctx = O
   seq_n rd (length l) s pos ctx = Ok (l, p) /\ zlen s <= p /\ (l <> [] -> pos < zlen s).
 Proof. exact seq_eof_spec. Qed.
 
+(* write side: a fixed-size array of non-character elements with a different number of elements is refused; a null-terminated array is
+   dumped as its elements followed by the element type's zero value (characters: the bytes followed by NUL) *)
+Theorem wrong_element_count_is_refused : forall c el wr n vs pos sz, ty_size c el = Some sz ->
+  (match el with TPrim PChar _ | TPrim PWchar _ => false | _ => true end) = true ->
+  n <> Z.of_nat (length vs) -> write_array c el wr (LFixed n) (VList vs) pos = Err EArraySize.
+Proof. exact fixed_count_enforced. Qed.
+Theorem null_terminated_dump_appends_zero : forall c el wr vs pos,
+  (match el with TPrim PChar _ | TPrim PWchar _ => false | _ => true end) = true ->
+  write_array c el wr LNull (VList vs) pos = write_list c el wr (vs ++ [default_value el]) pos.
+Proof. exact null_terminated_dump. Qed.
+Theorem null_terminated_chars_dump_appends_nul : forall c al wr bs pos, write_array c (TPrim PChar al) wr LNull (VBytes bs) pos = Ok (bs ++ [0]).
+Proof. exact null_terminated_dump_chars. Qed.
+
 Print Assumptions counted_array_is_n_sequential_reads.
+Print Assumptions wrong_element_count_is_refused.
 Print Assumptions bulk_unpack_is_sequential.
 Print Assumptions expression_count.
 Print Assumptions null_terminated_stops_at_first_zero.
